@@ -7,9 +7,8 @@ set -u
 HERE="$(cd "$(dirname "$0")" && pwd)"
 ID="${1:?property id}"; TIER="${2:-${VERIF_TIER:-quick}}"; shift; shift || true
 export CARGO_NET_OFFLINE=true
-cd "$HERE/harness" || exit 2
 LOG="$(mktemp /tmp/vharness-build.XXXXXX)"
-if ! cargo build --release --offline >"$LOG" 2>&1; then
+if ! cargo build --release --offline --manifest-path "$HERE/harness/Cargo.toml" >"$LOG" 2>&1; then
   echo "INCONCLUSIVE property=$ID the harness (or /repo) does not build; last lines:"
   tail -n 25 "$LOG"
   rm -f "$LOG"
